@@ -198,7 +198,6 @@ Require Verif.Tie.Loops.Nuget.
 Require Verif.Tie.Loops.Pypi.
 Require Verif.Tie.Loops.Rpm.
 Require Verif.Tie.Loops.Semver.
-Require Verif.Tie.Parse.Conan.
 Definition C01_tie_alpine_compareInt := Verif.Tie.Alpine.tie_alpine_compareInt.
 Print Assumptions C01_tie_alpine_compareInt.
 Definition C01_tie_alpine_compareLetters := Verif.Tie.Alpine.tie_alpine_compareLetters.
@@ -419,8 +418,4 @@ Definition C01_tie_loops_semver_comparePrerelease := Verif.Tie.Loops.Semver.tie_
 Print Assumptions C01_tie_loops_semver_comparePrerelease.
 Definition C01_tie_semver_compare_closed := Verif.Tie.Loops.Semver.tie_semver_compare_closed.
 Print Assumptions C01_tie_semver_compare_closed.
-Definition C01_tie_newversion_matched := Verif.Tie.Parse.Conan.newversion_matched.
-Print Assumptions C01_tie_newversion_matched.
-Definition C01_tie_newversion_unmatched := Verif.Tie.Parse.Conan.newversion_unmatched.
-Print Assumptions C01_tie_newversion_unmatched.
 (* ====== ties to the source: END ====== *)
